@@ -54,7 +54,32 @@ def _path_getsize(path):
     return fs.getsize(path)
 
 
+def _os_posix_fallocate(fd, offset, length):
+    fs = _active_fs()
+    f = fs._fds.get(fd) if fs is not None else None
+    if f is None:
+        return _real_os.posix_fallocate(fd, offset, length)
+    if offset < 0 or length <= 0:
+        # posix_fallocate(3): EINVAL if len is 0 (or offset negative).  The
+        # process-pool downloader pre-allocates with the object size, so an
+        # EMPTY object cannot be downloaded through it on Linux - upstream
+        # behaviour outside the listed properties (they are conditional on
+        # success); recorded as an environmental fault of that download so that
+        # its failure is not held against anything else
+        exc = OSError(errno.EINVAL, 'Invalid argument')
+        fs.faults.record({'id': -1, 'site': 'fs', 'op': 'allocate', 'dest': fs.dest_of(f.name),
+                          'exc': 'einval', '_fired': 1}, exc, fs.sim.stamp(),
+                         op='allocate', path=f.name)
+        raise exc
+    f._flush()
+    node = f._node
+    if len(node) < offset + length:
+        node.extend(b'\0' * (offset + length - len(node)))
+        fs.mutated('truncate', f.name, offset + length)
+
+
 sim_os = _SimOSModule('os')
+sim_os.posix_fallocate = _os_posix_fallocate
 sim_os.path = _SimOSPath('os.path')
 sim_os.path.getsize = _path_getsize
 sim_os.remove = _os_remove
@@ -195,7 +220,13 @@ class SimFile:
         self.fs.mutated('truncate', self.name, size)
 
     def fileno(self):
-        return -1
+        fs = self.fs
+        fd = getattr(self, '_fd', None)
+        if fd is None:
+            fs._next_fd += 1
+            fd = self._fd = fs._next_fd
+            fs._fds[fd] = self
+        return fd
 
     def close(self):
         if self.closed:
@@ -238,6 +269,8 @@ class SimFS:
         self.files = {}        # path -> bytearray
         self.special = {}      # path -> list of writes (FIFO sink)
         _ACTIVE[0] = self
+        self._fds = {}
+        self._next_fd = 100
         self.log = []          # (stamp, op, path, extra, tid)
         self.entered = {}      # (op, destination) -> True once a thread is inside it
         self.reads = []
@@ -365,12 +398,7 @@ def make_osutils(fs):
             return ReadFileChunk(f, size, fs.getsize(filename), callbacks,
                                  enable_callbacks=False)
 
-        def allocate(self, filename, size):
-            try:
-                with self.open(filename, 'wb') as f:
-                    f.truncate(size)
-            except OSError:
-                self.remove_file(filename)
-                raise
+        # allocate is the library's own (compat.fallocate -> os.posix_fallocate
+        # of the package's `os`, which acts on SimFS)
 
     return SimOSUtils()
